@@ -32,7 +32,7 @@ META = {
     "note": "Honest limit: the theorems cover the scheduling logic of the model for all schedules; data-race freedom and "
             "memory safety of the compiled C++ (thread pool, MPMC queue, futures) are observed by sanitizers, not proved. "
             "VTB payloads are not generated (context VbkBlocks and ATVs are). VbkBlocks carry precalculated hashes in "
-            "the sanitizer variants (vProgPoW costs ~100 s per epoch under TSan and trips UBSan, see C17); the rel "
+            "the sanitizer variants (vProgPoW costs ~100 s per epoch under TSan and is slow at -O0 under ASan); the rel "
             "variant computes real hashes on the workers. Trusted: Coq kernel, extraction, OCaml driver, C++ harness, "
             "Python trace-to-schedule conversion.",
     "technique": "Coq proof (invariants over all interleavings) + differential run on real threads under ASan/TSan + "
@@ -161,7 +161,9 @@ def run_variant(ctx, binary, cases, variant, tag):
 
 
 def report_sanitizer(ctx, binary, cases, variant, rc, res, err):
-    """the process died or a sanitizer spoke: attribute it to the first case without a result and confirm by re-running"""
+    """the process died or a sanitizer spoke: attribute it to the first case without a result. A sanitizer report is
+    evidence by itself; a bare timeout / abnormal exit without a report counts only if it reproduces (the machine
+    may be heavily loaded), and a reproducible bare timeout is a machinery problem, not a property violation"""
     missing = [c for c in cases if c["id"] not in res]
     san = san_summary(err)
     if rc == 0 and not san:
@@ -171,13 +173,23 @@ def report_sanitizer(ctx, binary, cases, variant, rc, res, err):
         ctx.broken.append("runner:%s rc=%d %s" % (variant, rc, err[-300:]))
         return True
     text = err
-    for attempt in range(3):
-        _, rc2, res2, _, err2 = run_variant(ctx, binary, [culprit], variant, "confirm%d" % attempt)
-        if rc2 != 0 or san_summary(err2):
-            text = err2
-            break
-    san = san_summary(text) or san
-    kind, key, excerpt = san if san else ("crash", "crash:rc%d" % rc, err[-1500:])
+    reproduced = False
+    rc2 = rc
+    if not san:
+        for attempt in range(2):
+            _, rc2, res2, _, err2 = run_variant(ctx, binary, [culprit], variant, "confirm%d" % attempt)
+            if rc2 != 0 or san_summary(err2):
+                text = err2
+                reproduced = True
+                break
+        san = san_summary(text)
+        if not reproduced:
+            ctx.cov.setdefault("unreproduced_abnormal_exits", []).append({"variant": variant, "rc": rc, "case": case_line(culprit)})
+            return False
+        if not san and rc2 == 124:
+            ctx.broken.append("runner:%s reproducible timeout on case %s" % (variant, case_line(culprit)))
+            return True
+    kind, key, excerpt = san if san else ("crash", "crash:rc%d" % rc2, text[-1500:])
     ctx.violation({"kind": "input", "cases": [culprit], "variant": variant, "what": "sanitizer report / abnormal exit "
                    "while running the real validator on this case (rc=%d)" % rc, "report": excerpt}, key=key)
     return True
